@@ -109,11 +109,21 @@ func raceSignature(report string) (sig string, inGengine bool, frames []string) 
 func init() {
 	register(&Prop{
 		ID:   "C19",
-		Rule: "scenarios drawn from the generators of the concurrency properties (C05 mixed/N-M models with parked rules, C13 DAG, C06 and C17 pool request histories, C07 updates inside and concurrent with executions, C18 conc blocks, C11 20-40-rule concurrent calls, C16 management histories with probe-all), executed in a binary built with -race, GOMAXPROCS in {2,4,16} by shard; user data is never accessed conflictingly by construction (observers are locked, concurrent rules and children touch disjoint objects); oracle = the Go race detector: a report counts iff the innermost frame outside runtime/reflect/sync of at least one of the two accesses lies in a gengine package; signature = unordered pair of those functions. Non-trivial: the scenario is non-trivial for its own property (>= 2 goroutines inside gengine); distinct by case hash",
+		Rule: "scenarios drawn from the generators of the concurrency properties (C05 mixed/N-M models with parked rules, C13 DAG, C06 and C17 pool request histories, C07 updates inside and concurrent with executions, C18 conc blocks, C11 20-40-rule concurrent calls, C16 management histories with probe-all; 2% of the cases are pools kept saturated for 2.1-3.4 s of wall-clock time with 1-3 waiting requests), executed in a binary built with -race, GOMAXPROCS in {2,4,16} by shard; user data is never accessed conflictingly by construction (observers are locked, concurrent rules and children touch disjoint objects); oracle = the Go race detector: a report counts iff the innermost frame outside runtime/reflect/sync of at least one of the two accesses lies in a gengine package; signature = unordered pair of those functions. Non-trivial: the scenario is non-trivial for its own property (>= 2 goroutines inside gengine); distinct by case hash",
 		New:  func() interface{} { return &C19Case{} },
 		Gen: func(t *rapid.T) interface{} {
 			k := c19Kinds[uni(t, "scenario", 0, len(c19Kinds)-1)]
-			inner := registry[k].Gen(t)
+			var inner interface{}
+			if pct(t, "long_hold", 2) {
+				// a pool that stays saturated for seconds of wall-clock time, with waiters (the C17
+				// long saturation), here with holds of 2.1-3.4 s
+				sz := [][2]int64{{1, 2}, {1, 3}, {2, 3}}[uni(t, "long_hold_size", 0, 2)]
+				k = "C17"
+				inner = &C17Case{PoolMin: sz[0], PoolMax: sz[1], EM: uni(t, "long_hold_em", 1, 4),
+					Slow: &C17Slow{HoldMs: uni(t, "long_hold_ms", 2100, 3400), Waiters: uni(t, "long_hold_waiters", 1, 3), Method: uni(t, "long_hold_m", 0, 23)}}
+			} else {
+				inner = registry[k].Gen(t)
+			}
 			if c18, ok := inner.(*C18Case); ok && c18.Engines > 1 {
 				// several engines on one builder: children that store into the shared host objects
 				// would conflict on user data; they become local assignments
